@@ -134,8 +134,10 @@ static void hook(const mjData* d, int kind, const void* ptr, size_t bytes, size_
       if (s->synced && s->last_pbase != 0) violate("free with no shadow frame but pbase=%llu", s->last_pbase, 0, 0, 0);
     } else {
       Frame f = s->fr[--s->nfr];
-      if (f.known && d->pstack != f.pstack_before) violate("free restored pstack=%llu, mark recorded %llu", d->pstack, f.pstack_before, 0, 0);
-      if (f.known && d->pbase != f.pbase_before) violate("free restored pbase=%llu, mark recorded %llu", d->pbase, f.pbase_before, 0, 0);
+      // (a recorded value beyond the arena size cannot have been a stack offset: with a thread pool attached the snapshot taken at the
+      // mark raced with a worker's own update of the shared fields - the monitor's read is not atomic with the engine's lock; skipped)
+      if (f.known && f.pstack_before <= d->narena && d->pstack != f.pstack_before) violate("free restored pstack=%llu, mark recorded %llu", d->pstack, f.pstack_before, 0, 0);
+      if (f.known && f.pbase_before <= d->narena && d->pbase != f.pbase_before) violate("free restored pbase=%llu, mark recorded %llu", d->pbase, f.pbase_before, 0, 0);
       s->nlive = f.nlive;
     }
   }
